@@ -42,6 +42,8 @@ struct SeqSpec {
     /// after row i (index), re-state the current address with set_address(base + offset_i)
     restate_after: Option<usize>,
     end_offset: u64,
+    /// VLIW only: the operation index the sequence ends at (set on the current row before end_sequence)
+    end_opi: Option<u64>,
 }
 
 #[derive(Clone, Debug, PartialEq, Eq)]
@@ -242,7 +244,18 @@ fn gen_spec(ch: &mut Choices) -> ProgSpec {
             }
         };
         let restate_after = if !rows.is_empty() && ch.chance(48) { Some(ch.below(rows.len())) } else { None };
-        seqs.push(SeqSpec { begin, rows, restate_after, end_offset });
+        let max_ops = lenc.maximum_operations_per_instruction as u64;
+        let end_opi = if max_ops > 1 && ch.chance(110) {
+            let last = rows.last().map(|r: &RowSpec| (r.offset, r.op_index));
+            Some(match last {
+                // within the last row's instruction the operation index may only grow
+                Some((o, opi)) if o == end_offset => opi + ch.below((max_ops - opi) as usize) as u64,
+                _ => ch.below(max_ops as usize) as u64,
+            })
+        } else {
+            None
+        };
+        seqs.push(SeqSpec { begin, rows, restate_after, end_offset, end_opi });
     }
     ProgSpec {
         big,
@@ -450,6 +463,10 @@ fn write_spec(s: &ProgSpec) -> R<Result<(Written, Vec<ExpRow>, Vec<Option<ExpFil
                 // re-state the current address: both readings of `address_offset` agree on what follows
                 p.set_address(Address::Constant(base + r.offset));
             }
+        }
+        if let Some(x) = seq.end_opi {
+            p.row().op_index = x;
+            last_opi = x;
         }
         p.end_sequence(seq.end_offset);
         let last = seq.rows.last();
